@@ -10,7 +10,7 @@ from ..runner import ok, violation, inconclusive
 from . import ddcase
 
 RULE = ("a helper process holds fcntl write or read locks (whole file, first byte, a record inside the file, a record past "
-        "its end) on a chosen subset of the members that the reference model says "
+        "its end; in a quarter of the cases fclones' own open-for-write of the locked file is refused with EACCES) on a chosen subset of the members that the reference model says "
         "will be dropped (controls: locks on retained members, locks released before the run); each of the five operations "
         "then runs on the real report with and without --no-lock (dedupe with FICLONE emulation). Oracle: without --no-lock "
         "every locked inode's paths are untouched (inode, bytes, mtime) and named by a 'Failed to lock' warning, all other "
@@ -86,7 +86,11 @@ def _run(sc, r, scratch, i):
         if no_lock:
             rcfg["no_lock"] = True
         log = os.path.join(d, "shim.log")
-        env = shimlog.shim_env(log, [troot] + ([target] if target else []), ficlone=(op == "dedupe"))
+        # a quarter of the plain lock cases: fclones cannot even open the locked file for writing (a read-only file seen by
+        # an unprivileged user; here EACCES injected into its first open of that path) - the foreign lock still holds
+        denied = variant == "drop" and not no_lock and r.random() < 0.25
+        plan = shimlog.plan(*[shimlog.rule("open", p, 1, "fail:13", exact=True) for p in locked]) if denied else None
+        env = shimlog.shim_env(log, [troot] + ([target] if target else []), plan, ficlone=(op == "dedupe"))
         rres, rargv = dd.run_dedupe(op, rcfg, report, troot, home, target=target, extra_env=env)
         after = inventory.take(troot, digest=True)
     finally:
@@ -99,7 +103,7 @@ def _run(sc, r, scratch, i):
         except Exception:
             holder.kill()
     witness = {"case": i, "scenario": {k: sc[k] for k in ("group", "fmt", "op", "cfg")}, "spec": sc["spec"], "variant": variant,
-               "lock_mode": lock_mode, "lock_range_start_len": list(lock_range), "no_lock": no_lock, "locked": [fsd(p) for p in locked],
+               "lock_mode": lock_mode, "lock_range_start_len": list(lock_range), "open_for_write_denied": denied, "no_lock": no_lock, "locked": [fsd(p) for p in locked],
                "argv": [fsd(a) for a in rargv], "rc": rres.rc, "stderr": rres.err_text()[-2500:],
                "report": report.decode("utf-8", "replace")[:3000]}
     if rres.timed_out:
@@ -133,14 +137,14 @@ def _run(sc, r, scratch, i):
                           % (len(must_process - done), len(done - must_process)), witness)]
     if lock_active:
         errt = rres.err_text()
-        if protected and "Failed to lock" not in errt:
+        if protected and "Failed to lock" not in errt and not (denied and "Failed to open file" in errt):
             return [violation("C20:%s:no-warning-for-locked-file" % op, "no 'Failed to lock file' warning was logged", witness)]
         summ = dd.summary(errt)
         if summ and summ["count"] != len(must_process):
             witness["summary"] = summ
             return [violation("C20:%s:processed-count-includes-locked" % op,
                               "summary says %d files processed, %d expected" % (summ["count"], len(must_process)), witness)]
-    sig = (op, variant, lock_mode, lock_range, no_lock, len(locked), sc["fmt"]) if variant == "drop" else None
+    sig = (op, variant, lock_mode, lock_range, no_lock, denied, len(locked), sc["fmt"]) if variant == "drop" else None
     counts = {"locked_files": len(locked), "ops": [op], "variants": [variant + ("/no-lock" if no_lock else "")]}
     return [ok(sig, {"op": op, "variant": variant, "lock": lock_mode, "range": list(lock_range), "no_lock": no_lock, "locked": len(locked),
                      "processed": len(done)}, counts)]
